@@ -78,6 +78,8 @@ LookupRules(e) ==
         [] OTHER -> TRUE
 SendRules(e) ==
   /\ Check(e.misrouted = "", "a region accepted a request for a key it does not hold", e.misrouted)
+  \* also in the middle of a walk: with every store up and PD answering freshly nothing stands in the way of a single request
+  /\ (~e.final /\ e.calm) => Check(e.ok /\ e.addr = e.leaderaddr, "a request failed or went elsewhere although every store was up and PD answered freshly", <<e.k, e.ok, e.err, e.addr, e.leaderaddr, e.tries>>)
   /\ e.final => Check(e.ok /\ e.addr = e.leaderaddr, "after the topology stopped changing a request did not converge to the leader of its region", <<e.k, e.ok, e.err, e.addr, e.leaderaddr, e.tries>>)
 Init == pos = 1 /\ prev = <<>> /\ hasPrev = FALSE
 Next ==
